@@ -3,9 +3,9 @@
 package hx
 
 import (
+	"fmt"
 	"os"
 	"sort"
-	"strings"
 	"sync"
 
 	"github.com/gdamore/tcell/v2/terminfo"
@@ -53,30 +53,46 @@ func TermNames() []string {
 // AllNames returns every registered name and alias.
 func AllNames() []string { loadTerms(); return allNames }
 
-// Term returns a fresh private copy of a built-in entry (nil if unknown).
-// With truecolor, the library's own lookup synthesises the direct-colour
-// strings on a private copy registered under a scratch name, so the shared
-// database is never modified.
+// Term returns a fresh private copy of a built-in entry (nil if unknown), as
+// the library's own lookup would hand it out; the shared database is never
+// modified.
 func Term(name string, truecolor bool) *terminfo.Terminfo {
 	loadTerms()
 	p := byName[name]
 	if p == nil {
 		return nil
 	}
-	cp := *p
-	cp.Aliases = append([]string(nil), p.Aliases...)
-	if !truecolor {
+	key := p.Name
+	if truecolor {
+		key += "|tc"
+	}
+	if tc, ok := tcCache[key]; ok {
+		cp := *tc
+		cp.Aliases = append([]string(nil), p.Aliases...)
 		return &cp
 	}
+	cp := *p
 	orig := cp.Name
-	cp.Name = "verifscratch-" + strings.ReplaceAll(orig, "-truecolor", "")
+	// every entry goes through the library's own lookup (which adds the
+	// direct-colour strings for entries flagged TrueColor, or for a
+	// -truecolor name), on a private copy registered under a scratch name
+	// that cannot collide with any -256color/-color variant.
+	cp.Name = fmt.Sprintf("verifscratch%d", len(tcCache))
 	cp.Aliases = nil
 	terminfo.AddTerminfo(&cp)
-	got, err := terminfo.LookupTerminfo(cp.Name + "-truecolor")
+	look := cp.Name
+	if truecolor {
+		look += "-truecolor"
+	}
+	got, err := terminfo.LookupTerminfo(look)
 	if err != nil || got != &cp {
-		panic("hx.Term: truecolor synthesis failed for " + name)
+		panic(fmt.Sprintf("hx.Term: lookup failed for %s: err=%v got=%p want=%p", name, err, got, &cp))
 	}
 	cp.Name = orig
 	cp.Aliases = append([]string(nil), p.Aliases...)
+	keep := cp
+	tcCache[key] = &keep
 	return &cp
 }
+
+var tcCache = map[string]*terminfo.Terminfo{}
